@@ -54,6 +54,8 @@ for tier, k in (("q", 3), ("t", 4)):
         ["Create", "Link", "Close", "Open"], life=2, emit=J3, gen=1)
     cfg("c03f_" + tier, N2, k, ["blocks", "arrays", "tags", "groups"], ["refs", "garrays"], [], ["Create", "Links", "Close", "Open"], life=2, steps=k + 4, emit=["SetLinks", "Open"])
     cfg("c03g_" + tier, N2, k + 1, ["blocks", "arrays", "tags", "groups"], ["refs", "garrays", "gtags"], [], ["Create", "Link", "Close", "Open"], life=2, steps=k + 3, emit=["AddLink", "RemoveLink", "Open"])
+    cfg("c03h_" + tier, N2, k + 1, ["blocks", "frames", "groups"], ["gframes"], [], ["Create", "Link", "Links", "Close", "Open"], life=2, steps=k + 3, emit=["AddLink", "RemoveLink", "SetLinks", "Open"])
+    cfg("c03i_" + tier, N1, k + 1, ["blocks", "arrays", "mtags", "groups"], ["gmtags"], [], ["Create", "Link", "Links", "Close", "Open"], life=2, steps=k + 3, emit=["AddLink", "RemoveLink", "SetLinks", "Open"])
     cfg("c03e_" + tier, N3, k, ["blocks"], [], [], CD, life=2, emit=J3)
     # C04: deletion in link graphs (sibling structures need two names)
     J4 = ["Delete"]
@@ -61,6 +63,7 @@ for tier, k in (("q", 3), ("t", 4)):
     cfg("c04a_" + tier, N1, k + 2, ["blocks", "arrays", "tags", "mtags", "features"], ["refs"], ["positions", "extents", "data"], L, emit=J4, gen=1)
     cfg("c04b_" + tier, N1, k, ["blocks", "sections", "sources", "arrays", "groups"], ["esources", "garrays"], ["metadata", "link"], L, emit=J4, gen=1)
     cfg("c04c_" + tier, N1, k, ["blocks", "arrays", "frames", "groups", "tags"], ["gframes", "garrays", "gtags", "refs"], [], L + ["Dims"], dims=2, emit=J4, gen=1)
+    cfg("c04h_" + tier, N1, k + 1, ["blocks", "arrays", "mtags", "groups"], ["gmtags", "refs"], ["positions"], L, steps=k + 3, emit=J4, gen=1)
     cfg("c04d_" + tier, N2, k + 1, ["blocks", "sources", "arrays"], ["esources"], [], L, steps=k + 3, emit=J4, gen=1)
     cfg("c04e_" + tier, N1, k, ["blocks", "arrays", "tags", "sources"], ["refs", "esources"], ["metadata"], L + ["Close", "Open"], life=2, emit=J4, gen=1)
     cfg("c04f_" + tier, N2, k, ["sections", "props"], [], ["link"], L, steps=k + 2, emit=J4, gen=1)
@@ -72,6 +75,7 @@ for tier, k in (("q", 3), ("t", 4)):
     cfg("c08d_" + tier, N1, k + 1, ["blocks", "arrays", "tags", "sources", "groups"], ["refs", "esources", "garrays", "gtags"], [], ["Create", "Link", "Links", "Foreign"], steps=k + 3, res="reject")
     # two blocks with equally named arrays / tags: a same-named entity of the OTHER block as link target
     cfg("c08e_" + tier, N2, k + 2, ["blocks", "arrays", "tags"], ["refs"], [], ["Create", "Link", "Links"], steps=k + 4, res="reject", emit=["AddLink", "RemoveLink", "SetLinks"])
+    cfg("c08f_" + tier, N1, k + 1, ["blocks", "arrays", "mtags", "frames", "groups"], ["gmtags", "gframes"], [], ["Create", "Link", "Links", "Foreign"], steps=k + 3, res="reject")
     cfg("c08c_" + tier, N1, k, ["blocks", "sections", "props", "sources"], [], ["metadata", "link"], R, steps=k + 2, res="reject")
     # C02: reopen identity (every history, close + reopen in either mode; also flush / reopen inside)
     A2 = ["Create", "Delete", "Link", "One", "Attr", "Type", "Def", "Dims", "Flush", "Close", "Open"]
@@ -83,15 +87,20 @@ for tier, k in (("q", 3), ("t", 4)):
     cfg("c02d_" + tier, N1, 4, ["blocks", "arrays", "sources", "groups"], ["esources", "garrays"], [], ["Create", "Link"] + LO, life=2, steps=k + 6, emit=["Open"], gen=2)
     cfg("c02e_" + tier, N1, 3, ["blocks", "sections", "props"], [], ["metadata", "link"], ["Create", "Delete", "One"] + LO, life=2, steps=k + 5, emit=["Open"], gen=2)
     cfg("c02f_" + tier, N1, 3, ["blocks", "arrays", "frames"], [], [], ["Create", "Delete", "Dims"] + LO, life=2, dims=2, steps=k + 5, emit=["Open"], gen=2)
+    cfg("c02h_" + tier, N1, 4, ["blocks", "groups", "frames", "tags"], ["gframes", "gtags"], [], ["Create", "Link"] + LO, life=2, steps=k + 5, emit=["Open"], gen=1)
+    cfg("c02i_" + tier, N1, 4, ["blocks", "arrays", "mtags", "groups"], ["gmtags", "refs"], [], ["Create", "Link"] + LO, life=2, steps=k + 5, emit=["Open"], gen=1)
     cfg("c02g_" + tier, N1, 4, ["blocks", "arrays", "tags", "features"], [], ["data"], ["Create", "Delete", "One"] + LO, life=2, steps=k + 5, emit=["Open"], gen=2)
     # C09: every mutator in a read-only session
     A9 = ["Create", "CreateBad", "Delete", "Link", "One", "Attr", "Type", "Def", "Dims", "Close", "Open", "Flush"]
     E9 = [a for a in ALLACTS if a != "Crash"]
     cfg("c09a_" + tier, N1, k, ["blocks", "arrays", "tags", "sections", "props", "sources"], ["refs", "esources"], ["metadata", "link"], A9, life=2, dims=1, steps=k + 4, emit=E9, when="ro")
     cfg("c09b_" + tier, N1, k + 1, ["blocks", "arrays", "mtags", "features", "groups", "frames"], ["garrays", "gframes"], ["positions", "extents", "data"], A9, life=2, dims=1, steps=k + 4, emit=E9, when="ro")
+    cfg("c09c_" + tier, N1, k + 1, ["blocks", "arrays", "tags", "mtags", "groups"], ["gtags", "gmtags"], [], A9, life=2, steps=k + 4, emit=E9, when="ro")
     # C11: flush / close / crash / reopen
     A11 = ["Create", "Delete", "Link", "Attr", "Flush", "Close", "Crash", "Open", "OpenOw"]
     cfg("c11a_" + tier, N1, k, ["blocks", "arrays", "tags", "sections", "props"], ["refs"], [], A11, life=4, steps=k + 4, emit=["Open", "Close", "Crash"])
+    cfg("c11b_" + tier, N1, k, ["blocks", "frames", "groups", "sources", "arrays"], ["esources", "garrays", "gframes"], [], A11, life=4, steps=k + 4, emit=["Open", "Close", "Crash"])
+    cfg("c11c_" + tier, N1, k + 1, ["blocks", "arrays", "mtags", "features", "sections"], ["gmtags"], ["metadata", "extents", "data", "link"], ["Create", "One", "Flush", "Close", "Crash", "Open"], life=3, steps=k + 4, emit=["Open", "Close", "Crash"])
     # C20: searches and back references as one QueryAll self-loop per reachable state (after arbitrary deletions)
     cfg("c20a_" + tier, N2, k + 1, ["sections", "props"], [], ["link"], ["Create", "Delete", "One", "Type", "Query"], steps=k + 3, emit=["QueryAll"])
     cfg("c20d_" + tier, N2, k + 2, ["sections"], [], [], ["Create", "Delete", "Query"], steps=k + 3, emit=["QueryAll"])
